@@ -68,16 +68,19 @@ def parts_of(g):
 def observe(text, ctx):
     """Both observation points for one spelling."""
     o = {'text': text}
+    shared = dict(ctx) if ctx else None  # one context object for both calls, as a caller resolving many references has
     try:
-        t = _Range()(text, dict(ctx) if ctx else None)
+        t = _Range()(text, shared)
         o['name'], o['full'] = t.name, t.end_match == len(text)
     except _errs() as ex:
         o['terr'] = type(ex).__name__
     try:
-        g = sut.Ranges().push(text, context=dict(ctx) if ctx else None).ranges[0]
+        g = sut.Ranges().push(text, context=shared).ranges[0]
         o['pname'], o['rect'] = g.get('name'), parts_of(g)
     except _errs() as ex:
         o['perr'] = type(ex).__name__
+    if shared is not None and shared != dict(ctx):
+        o['ctx_changed'] = {k: (ctx.get(k), shared.get(k)) for k in set(ctx) | set(shared) if ctx.get(k) != shared.get(k)}
     return o
 
 
@@ -178,6 +181,8 @@ def check_rect(case):
             nt.append(['sp', den['book'], X.fold(den['sheet']), rect, text, sorted((k, str(v)) for k, v in ctx.items())])
         where = '%r in %r' % (text, ctx)
         both = [o.get('name'), o.get('pname')]
+        if 'ctx_changed' in o:
+            fails.append(('context|changed-by-resolution|%s' % sp['q'], 'resolving %s changed the caller\'s context: %r' % (where, o['ctx_changed'])))
         qcause = 'numbered-link-quoted' if sp['q'] == 'idxq' else None
         if 'terr' in o:
             fails.append((sig('parse', [den], both, 'raises'), 'Range(%s) raised %s' % (where, o['terr'])))
@@ -350,6 +355,21 @@ def check_name(case):
             continue
         if not full:
             fails.append(('name-parse|%s|partial' % rule, 'Range(%r) consumed only part -> %r' % (text, nm)))
+        # the way a model registers a defined name: Ref(<identifier>, formula, context) with the context it uses for
+        # everything else; afterwards the same context still resolves a plain reference as before
+        shared = dict(ctx)
+        try:
+            if sut.formulas.cell._re_ref.match(nm) is None:
+                raise _errs()[0]('identifier is not a name reference')  # (mis-shaped identifiers are other findings' business)
+            before = sut.Ranges().push('B7', context=dict(ctx)).ranges[0]['name']
+            sut.formulas.cell.Ref(nm, '=1', shared)
+            after = sut.Ranges().push('B7', context=shared).ranges[0]['name']
+            n_eval += 1
+            if shared != dict(ctx) or before != after:
+                fails.append(('context|changed-by-Ref|%s' % rule, 'Ref(%r, "=1", ctx) left the context %r (was %r); B7 resolves to %r (was %r)' % (
+                    nm, shared, ctx, after, before)))
+        except _errs():
+            pass
         seen.setdefault(nm, (text, ctx))
         labels.append('name-case:' + ('upper' if text == text.upper() else 'lower' if text == text.lower() else 'mixed'))
     if len(seen) > 1:
